@@ -92,7 +92,10 @@ Consume ==
                 \E ds \in {Desync(s, ev, o, s2)} :
                    /\ s' = s2
                    /\ viol' = viol \cup {[tr |-> ln.tr, i |-> ln.i, tag |-> t] : t \in (mine \cup ds)}
-                   /\ skip' = (mine \cup ds # {})
+                   \* after a violation, or when the client state / liveness of model and code differ,
+                   \* nothing later in this trace is believed; a difference in the registered topics
+                   \* or the buffer length is recorded but judging continues against the intended state
+                   /\ skip' = (mine # {} \/ DesyncFatal(s, ev, o, s2))
                    /\ obsLastB' = IF ln.outB # <<>> THEN ln.now ELSE obsLastB
                    /\ stat' = [stat EXCEPT !.lines = @ + 1, !.checked = @ + 1,
                                            !.exactC = @ + (IF CoreSeq(ln.outC) = CoreSeq(s2.outC) THEN 1 ELSE 0),
